@@ -888,6 +888,9 @@ const FEATURES: &[(&str, &str)] = &[
     (r"\let\sA= A\let\sB=\sA ", r"\sA\sB"),
     (r"\tracingmacros=0 ", r"\the\tracingmacros"),
     (r"\catcode`\^=7 ", r"^^41^^5a"),
+    (r"\catcode 70000=11 \mathcode 70001=5 ", r"\the\catcode 70000 \the\mathcode 70001"),
+    (r"\count3=-2147483647 \skip2=-16383.5pt plus -1filll minus 16383.5pt ", r"\the\count3 \the\skip2"),
+    (r"\catcode`\^^@=11 \def\a^^@b{nul}\catcode 127=11 \def\c^^?{del}", r"\a^^@b \c^^?"),
     (r"\def\mP#1{\def\mQ##1{#1##1}}\mP a", r"\mQ b\mP c\mQ d"),
     (r"\def\mR{r}\def\mS{\mR s}\expandafter\def\expandafter\mU\expandafter{\mS}\def\mR{R}", r"\mU\mS"),
     (r"\count6=4 \def\mI{\ifnum\count6<5 lt\else ge\fi}", r"\mI \count6=9 \mI"),
